@@ -62,6 +62,13 @@ def run (N : Nat) (s : AM Nat) (legacy : Bool) : Sx → Sx
       | .ok (vals, s') => tag "ok" (tag "ret" [ofNats vals] :: stateSx N s')
       | .error _ => tag "panic" []
     | _, _ => tag "bad-op" []
+  | .list [.atom "drainrev", lo, hi] =>
+    -- `drain(range).rev()`: the drained items, consumed from the back (`Drain::next_back`)
+    match nat? lo, (if hi == .atom "inf" then some none else (nat? hi).map some) with
+    | some lo, some hi => match drain s ⟨lo, hi⟩ with
+      | .ok (vals, s') => tag "ok" (tag "ret" [ofNats vals.reverse] :: stateSx N s')
+      | .error _ => tag "panic" []
+    | _, _ => tag "bad-op" []
   | .list [.atom "extend", vs] =>
     match nats? vs with
     | some vs => tag "ok" (stateSx N (extend s vs))
